@@ -147,6 +147,25 @@ func ruleSingleRounding(w *World, r *RuleResult) {
 			}
 		}
 	}
+	// (b') whatever writes the destination last (parser, copy of an operand, helper), a rounding follows
+	for _, name := range singleRoundingOps {
+		f := w.fn(name)
+		if f == nil {
+			continue
+		}
+		di := destArgIndex(w, f)
+		if !isDecimalPtr(f.Params[di].Type()) {
+			continue
+		}
+		key := name + " | every delivered value was rounded after its last write"
+		exc := map[string]string{"(*Decimal).Reduce": "strip after rounding", "store Negative": "sign only"}
+		probs := w.dirtyReturns(f, di, reach, exc)
+		if len(probs) == 0 {
+			r.ok(key, w.pos(f.Pos()), "after the last non-special write of the destination every path to a result-delivering return passes a call reaching Rounder.Round", true)
+		} else {
+			r.bad(key, w.pos(f.Pos()), strings.Join(uniqStrings(probs), "; "))
+		}
+	}
 	// (c) subnormal early return inside Rounder.Round
 	f := w.fn(rounderRound)
 	key := rounderRound + " | subnormal path does not discard digits twice"
